@@ -64,7 +64,13 @@ func NewSecureClientSessionFromSharedKey(sharedKey [32]byte) (Cryptographer, err
 // Encrypt return the encrypted data by splitting it into packets
 // [ length (2 bytes)] [ data ] [ auth (16 bytes)]
 func (s *secureSession) Encrypt(r io.Reader) (io.Reader, error) {
-	packets := packetsFromBytes(r)
+	// Nothing is encrypted (and no frame is counted) when the source fails: the bytes which
+	// it delivered until then would be sent as if they were the whole message.
+	packets, err := readPackets(PacketLengthMax, r)
+	if err != nil {
+		return nil, err
+	}
+
 	var buf bytes.Buffer
 	for _, p := range packets {
 		var nonce [8]byte
